@@ -6,6 +6,6 @@ out=/verif/seeded/$id; log=$out/confirm.log
 [ -z "$(git -C /repo status --porcelain)" ] || { echo "/repo not clean"; exit 3; }
 echo "== re-check after strengthening the checks ($(date -u +%F), /verif $(git -C /verif rev-parse --short HEAD), /repo $(git -C /repo rev-parse --short HEAD))" >> $log
 cd /repo && git apply $out/patch.diff || { echo "APPLY TO /repo FAILED" >> $log; exit 3; }
-for p in $props; do ( cd /verif && VERIF_SEEDED_RUN=1 ./check $p --tier quick 2>&1 | cut -c1-400 > $out/check_$p.out; echo "check $p exit=${PIPESTATUS[0]}" >> $log ); done
+for p in $props; do ( cd /verif && VERIF_SEEDED_RUN=1 ./check $p --tier ${VERIF_SEED_TIER:-quick} 2>&1 | cut -c1-400 > $out/check_$p.out; echo "check $p exit=${PIPESTATUS[0]}" >> $log ); done
 git -C /repo checkout -- .
 python3 /verif/tools/seedmeta.py --refresh $id
